@@ -436,8 +436,12 @@ def enumInteger (bits : List String) (i : Nat) : List (Key × Bool) :=
 def bddAssertConsistent : M Unit := fun m =>
   let t := m.tbl
   if !m.roots.all (fun r => t.mem r) then (.error .assertion, m) else
-  -- inverses / uniqueness
-  if m.pred.size ≠ t.succ.size then (.error .assertion, m) else
+  -- `succ_keys == pred_values`, `pred_keys == succ_values` (set comparisons): every entry of
+  -- `_pred` is the triple of its node (that every node has its entry is checked below)
+  if !(m.pred.toList.all fun (k, u) =>
+      match t.succ[u]? with
+      | some n => n.key == k
+      | none => false) then (.error .assertion, m) else
   let ok := t.succ.toList.all fun (u, n) =>
     t.mem n.lo && n.lo ≠ 0 && decide (0 < n.hi) && t.mem n.hi &&
     (match t.levelOf? n.lo, t.levelOf? n.hi with
